@@ -151,10 +151,14 @@ impl Renumberer {
             Err(_) => return Err(Box::new(lang::Error::LineNumber))
         };
         let [mut l0,mut ln] = [0x10000,0];
+        let mut any_selected = false;
         for (num,label) in &all_primaries {
             if label.len() != 1 {
                 log::error!("duplicated primary line number");
                 return Err(Box::new(crate::lang::Error::LineNumber));
+            }
+            if *num >= beg && *num < end {
+                any_selected = true;
             }
             if *num >= beg && l0 > label[0].rng.start.line {
                 l0 = label[0].rng.start.line;
@@ -162,6 +166,12 @@ impl Renumberer {
             if *num < end && ln < label[0].rng.start.line {
                 ln = label[0].rng.start.line;
             }
+        }
+        if !any_selected {
+            // without this, an empty selection either falls through to `None` below, which
+            // `build_edits` takes to mean the whole document, or selects row 0
+            error!("no line numbers in the range {}..{}",beg,end);
+            return Err(Box::new(lang::Error::LineNumber));
         }
         debug!("renumber rows {} to {}",l0,ln);
         let ext_sel = match l0 <= ln {
